@@ -171,6 +171,52 @@ func callArgs(fd *ast.FuncDecl, pkg, fn string) []string {
 	return out
 }
 
+// compositeFields returns the `Key: Value`-values (texts of the values, in order) of the composite
+// literal assigned to variable name inside fd (`name := T{...}` or `name := &T{...}`).
+func compositeFields(fd *ast.FuncDecl, name string) []string {
+	e := FindAssign(fd, name)
+	if u, ok := e.(*ast.UnaryExpr); ok {
+		e = u.X
+	}
+	cl, ok := e.(*ast.CompositeLit)
+	if !ok {
+		return nil
+	}
+	var out []string
+	for _, el := range cl.Elts {
+		if kv, ok := el.(*ast.KeyValueExpr); ok {
+			out = append(out, types.ExprString(kv.Value))
+		} else {
+			out = append(out, types.ExprString(el))
+		}
+	}
+	return out
+}
+
+// structFields lists "name type" of the fields of struct type name declared in f.
+func structFields(f *ast.File, name string) []string {
+	var out []string
+	for _, d := range f.Decls {
+		gd, ok := d.(*ast.GenDecl)
+		if !ok || gd.Tok != token.TYPE {
+			continue
+		}
+		for _, sp := range gd.Specs {
+			ts := sp.(*ast.TypeSpec)
+			st, ok := ts.Type.(*ast.StructType)
+			if !ok || ts.Name.Name != name {
+				continue
+			}
+			for _, fl := range st.Fields.List {
+				for _, n := range fl.Names {
+					out = append(out, n.Name+" "+types.ExprString(fl.Type))
+				}
+			}
+		}
+	}
+	return out
+}
+
 // lastReturn returns the text of the expression of fd's final return statement.
 func lastReturn(fd *ast.FuncDecl) string {
 	if fd == nil || fd.Body == nil || len(fd.Body.List) == 0 {
@@ -204,7 +250,7 @@ func genC13(repo string) (string, error) {
 	}
 
 	// ---- pkg/timeutil/interval.go: Type thresholds, Calculator table, CalcQueryInterval ladder
-	_, iv, err := ParseFile(repo, "pkg/timeutil/interval.go")
+	ivfset, iv, err := ParseFile(repo, "pkg/timeutil/interval.go")
 	if err != nil {
 		return "", err
 	}
@@ -382,6 +428,57 @@ func genC13(repo string) (string, error) {
 	fmt.Fprintf(&sb, "def initDataFamilyBody : List String := %s\n", LeanStrList(txt))
 	fmt.Fprintf(&sb, "def getOrCreateDataFamilyCalls : List String := %s\n",
 		LeanStrList(firstN(CallSeq(FindFunc(sf, "segment", "GetOrCreateDataFamily")), 3)))
+	// ---- range lookup: segment.GetDataFamilies / intervalSegment.GetDataFamilies
+	gdf := FindFunc(sf, "segment", "GetDataFamilies")
+	fq := compositeFields(gdf, "familyQueryTimeRange")
+	if len(fq) != 2 {
+		return "", fmt.Errorf("segment.GetDataFamilies: familyQueryTimeRange literal not found")
+	}
+	fmt.Fprintf(&sb, "def gdfRangeExprs : List String := %s\n", LeanStrList(fq))
+	fmt.Fprintf(&sb, "def segmentGdfCalls : List String := %s\n", LeanStrList(CallSeq(gdf)))
+	_, isf, err := ParseFile(repo, "tsdb/interval_segment.go")
+	if err != nil {
+		return "", err
+	}
+	igdf := FindFunc(isf, "intervalSegment", "GetDataFamilies")
+	fmt.Fprintf(&sb, "def intervalSegmentRangeExprs : List String := %s\n", LeanStrList(compositeFields(igdf, "segmentQueryTimeRange")))
+	fmt.Fprintf(&sb, "def intervalSegmentGdfCalls : List String := %s\n", LeanStrList(CallSeq(igdf)))
+
+	// ---- Interval.CalcSlotRange
+	txt, err = bodyText(ivfset, FindFunc(iv, "Interval", "CalcSlotRange"))
+	if err != nil {
+		return "", fmt.Errorf("Interval.CalcSlotRange: %w", err)
+	}
+	fmt.Fprintf(&sb, "def calcSlotRangeBody : List String := %s\n", LeanStrList(txt))
+
+	// ---- rollup relation (kv/family_rollup.go)
+	kfset, kf, err := ParseFile(repo, "kv/family_rollup.go")
+	if err != nil {
+		return "", err
+	}
+	for _, m := range []string{"GetTimestamp", "IntervalRatio", "CalcSlot", "BaseSlot"} {
+		txt, err = bodyText(kfset, FindFunc(kf, "rollup", m))
+		if err != nil {
+			return "", fmt.Errorf("rollup.%s: %w", m, err)
+		}
+		fmt.Fprintf(&sb, "def rollup%sBody : List String := %s\n", m, LeanStrList(txt))
+	}
+	txt, err = bodyText(kfset, FindFunc(kf, "", "newRollup"))
+	if err != nil {
+		return "", fmt.Errorf("newRollup: %w", err)
+	}
+	fmt.Fprintf(&sb, "def newRollupBody : List String := %s\n", LeanStrList(txt))
+	fr := FindFunc(kf, "family", "rollup")
+	var tgt []string
+	for _, v := range []string{"tSegmentTime", "tFamilyTime", "fSTime", "rollup"} {
+		e := FindAssign(fr, v)
+		if e == nil {
+			return "", fmt.Errorf("family.rollup: %s not found", v)
+		}
+		tgt = append(tgt, v+" := "+types.ExprString(e))
+	}
+	fmt.Fprintf(&sb, "def rollupTargetExprs : List String := %s\n", LeanStrList(tgt))
+
 	rfset, rf, err := ParseFile(repo, "series/metric/row_broker.go")
 	if err != nil {
 		return "", err
@@ -391,5 +488,13 @@ func genC13(repo string) (string, error) {
 		return "", fmt.Errorf("timeRangeOfTimestamp: %w", err)
 	}
 	fmt.Fprintf(&sb, "def timeRangeOfTimestampBody : List String := %s\n", LeanStrList(txt))
+	for _, m := range []string{"reset", "isSameFamily", "HasNextFamily", "NextFamily", "familyTimeOfTimestamp"} {
+		txt, err = bodyText(rfset, FindFunc(rf, "BrokerBatchShardFamilyIterator", m))
+		if err != nil {
+			return "", fmt.Errorf("BrokerBatchShardFamilyIterator.%s: %w", m, err)
+		}
+		fmt.Fprintf(&sb, "def broker%sBody : List String := %s\n", strings.ToUpper(m[:1])+m[1:], LeanStrList(txt))
+	}
+	fmt.Fprintf(&sb, "def brokerFamilyIteratorFields : List String := %s\n", LeanStrList(structFields(rf, "BrokerBatchShardFamilyIterator")))
 	return sb.String(), nil
 }
